@@ -9,6 +9,7 @@ CONSTANTS
   FD = FALSE
   MaxAge = 2
   QuietTicks = FALSE
+  JoinShortcut = FALSE
   BumpAdvancesVersion = TRUE
   NodeRank <- Rank
 INVARIANT Emit
